@@ -29,7 +29,7 @@ out = ["## 8. Seeded changes from isolated sub-agents", "",
            sum(r[6].startswith("caught") for r in rows)),
        "property, %d by the quick check of the neighbouring property whose domain they fall in (named in the row), %d are not" % (
            sum(r[6].startswith("own check silent") for r in rows), sum(r[6].startswith("NOT CAUGHT") for r in rows)),
-       "caught (the reason - an interleaving or process state no harness produces - is given in the row); %d of all" % (
+       "caught (the reason - an interleaving no harness produces, or a situation outside the domain of the statement - is given in the row); %d of all" % (
            sum(bool(r[5]) for r in rows)),
        "changes were missed by the version of the check that existed when they arrived and led to the strengthening named in the",
        "table (generator reach or an additional relation, never a loosened oracle). Three patches (C01/A, C01/E, C02/D) were rebased",
